@@ -4,6 +4,7 @@ import (
 	"bytes"
 	"fmt"
 	"math/rand"
+	"sync"
 
 	"github.com/akalin/gopar/gf2p16"
 
@@ -31,9 +32,9 @@ var c09Paths = []string{"ssse3", "scalar-asm", "generic-go", "platformLE-cast", 
 
 func init() {
 	register(&c09{base{
-		id:    "C09",
-		level: lvlExploration,
-		rule: "values mode: a 65536-word buffer holding every 16-bit word once is multiplied (and multiply-accumulated onto random output) by a block of constants on one dispatch path and compared word for word with reference rows; lengths mode: every even length 0..320 plus lengths around 2^16 and 2^17 bytes with source and destination flush against a trailing PROT_NONE guard page and again right after a leading one (a stray access faults and is attributed through the worker journal/note); align mode: source x destination alignments 0..63 in canary-filled memory, canaries and input re-checked after each call. A key is (path, op, mode-specific coordinate); trivial = length 0",
+		id:          "C09",
+		level:       lvlExploration,
+		rule:        "values mode: a 65536-word buffer holding every 16-bit word once is multiplied (and multiply-accumulated onto random output) by a block of constants on one dispatch path and compared word for word with reference rows; lengths mode: every even length 0..320 plus lengths around 2^16 and 2^17 bytes with source and destination flush against a trailing PROT_NONE guard page and again right after a leading one (a stray access faults and is attributed through the worker journal/note); align mode: source x destination alignments 0..63 in canary-filled memory, canaries and input re-checked after each call. A key is (path, op, mode-specific coordinate); trivial = length 0",
 		assumptions: append([]string{"the SSSE3 path needs an SSSE3 CPU (present here); non-amd64 dispatch cannot be executed on this machine, its Go kernels are driven directly", "guard pages catch accesses that leave the mapped span by less than a page at the guarded end; canaries catch writes (not reads) elsewhere"}, commonAssumptions...),
 		opts:        core.WorkerOpts{CrashIsViolation: true, WallSeconds: 1800},
 	}})
@@ -87,6 +88,10 @@ func (c *c09) Cases(tier string, seed int64) []core.Case {
 		for _, l := range big {
 			cs = append(cs, core.MkCase(fmt.Sprintf("lengths-%s-%d", p, l), c09Params{Mode: "lengths", Path: p, Lens: []int{l}, Seed: r.Int63()}))
 		}
+	}
+	// concurrent: many goroutines inside the kernels at once, each on its own buffers
+	for _, p := range c09Paths {
+		cs = append(cs, core.MkCase(fmt.Sprintf("concurrent-%s", p), c09Params{Mode: "concurrent", Path: p, Lens: []int{2, 30, 34, 62, 66, 100, 318, 2000}, Seed: r.Int63()}))
 	}
 	// align
 	for _, p := range c09Paths {
@@ -286,6 +291,56 @@ func (c *c09) Run(cs core.Case) core.Result {
 			}
 		}
 		r.Sample(map[string]interface{}{"mode": "lengths", "path": p.Path, "lengths": p.Lens, "placements": []string{"trailing-guard", "leading-guard", "alias-trailing"}})
+
+	case "concurrent":
+		// 16 goroutines, private inputs and outputs, same kernels at the same
+		// time: results must still be element-wise products.
+		const workers = 16
+		rounds := 300
+		type job struct {
+			c       int
+			in, out []byte
+			old     []byte
+			add     bool
+		}
+		var mu sync.Mutex
+		var wg sync.WaitGroup
+		seeds := make([]int64, workers)
+		for i := range seeds {
+			seeds[i] = rng.Int63()
+		}
+		for wkr := 0; wkr < workers; wkr++ {
+			wg.Add(1)
+			go func(wkr int) {
+				defer wg.Done()
+				lr := rand.New(rand.NewSource(seeds[wkr]))
+				var lrow [65536]uint16
+				for it := 0; it < rounds; it++ {
+					l := p.Lens[lr.Intn(len(p.Lens))]
+					cst := 1 + lr.Intn(65535)
+					in := make([]byte, l)
+					out := make([]byte, l)
+					lr.Read(in)
+					lr.Read(out)
+					old := append([]byte(nil), out...)
+					op := ops[lr.Intn(2)]
+					pi := core.Protect(func() { op.k(gf2p16.T(cst), in, out) })
+					gf16.Row(uint16(cst), &lrow)
+					want := c09Expect(&lrow, in, old, op.add)
+					mu.Lock()
+					if pi != nil {
+						r.Violate("kernel-panic|"+p.Path, "concurrent use, path=%s op=%s len=%d: %s", p.Path, op.name, l, pi.Msg)
+					} else if d := firstDiff(out, want); d >= 0 {
+						r.Violate("wrong-product-under-concurrent-use|"+p.Path+"|"+op.name, "path=%s op=%s c=%d len=%d: %d goroutines use the kernel at once on private buffers; byte %d of this goroutine's output differs from the reference", p.Path, op.name, cst, l, workers, d)
+					}
+					r.Count("concurrent_calls", 1)
+					mu.Unlock()
+				}
+			}(wkr)
+		}
+		wg.Wait()
+		r.Key("concurrent|%s", p.Path)
+		r.Sample(map[string]interface{}{"mode": "concurrent", "path": p.Path, "goroutines": workers, "calls": workers * rounds, "lengths": p.Lens})
 
 	case "align":
 		regIn, err1 := mon.NewGuardRegion(2)
